@@ -12,6 +12,7 @@ import (
 	"path/filepath"
 	"strings"
 	"sync"
+	"sync/atomic"
 	"time"
 
 	// imports required for go-digest
@@ -45,7 +46,7 @@ type dirRepo struct {
 	timeBlob  time.Time // last upload activity, timeMod is reset to the time index.json was written whenever the index is loaded
 	name      string
 	path      string
-	exists    bool
+	exists    atomic.Bool
 	index     types.Index
 	uploads   *cache.Cache[string, *dirRepoUpload]
 	log       *slog.Logger
@@ -173,7 +174,7 @@ func (d *dir) RepoGet(ctx context.Context, repoStr string) (Repo, error) {
 		//#nosec G304 internal method is only called with filenames within admin provided path.
 		layoutBytes, errLayout := os.ReadFile(filepath.Join(dr.path, layoutFile))
 		if errIndex == nil && errLayout == nil && !statIndex.IsDir() && layoutVerify(layoutBytes) {
-			dr.exists = true
+			dr.exists.Store(true)
 		}
 	}
 	dr.wg.Add(1)
@@ -321,7 +322,7 @@ func (dr *dirRepo) BlobGet(d digest.Digest) (io.ReadSeekCloser, error) {
 }
 
 func (dr *dirRepo) blobGet(d digest.Digest, locked bool) (io.ReadSeekCloser, error) {
-	if !dr.exists {
+	if !dr.exists.Load() {
 		return nil, fmt.Errorf("repo does not exist %s: %w", dr.name, types.ErrNotFound)
 	}
 	if err := d.Validate(); err != nil {
@@ -340,7 +341,7 @@ func (dr *dirRepo) blobGet(d digest.Digest, locked bool) (io.ReadSeekCloser, err
 // blobMeta returns metadata on a blob.
 func (dr *dirRepo) blobMeta(d digest.Digest, locked bool) (blobMeta, error) {
 	m := blobMeta{}
-	if !dr.exists {
+	if !dr.exists.Load() {
 		return m, fmt.Errorf("repo does not exist %s: %w", dr.name, types.ErrNotFound)
 	}
 
@@ -377,7 +378,7 @@ func (dr *dirRepo) blobCreate(locked bool, opts ...BlobOpt) (BlobCreator, string
 			return nil, "", err
 		}
 	}
-	if !dr.exists {
+	if !dr.exists.Load() {
 		err := dr.repoInit(locked)
 		if err != nil {
 			return nil, "", err
@@ -460,7 +461,7 @@ func (dr *dirRepo) blobDelete(d digest.Digest, locked bool) error {
 	if *dr.conf.Storage.ReadOnly {
 		return types.ErrReadOnly
 	}
-	if !dr.exists {
+	if !dr.exists.Load() {
 		return fmt.Errorf("repo does not exist %s: %w", dr.name, types.ErrNotFound)
 	}
 	if err := d.Validate(); err != nil {
@@ -533,7 +534,7 @@ func (dr *dirRepo) repoInit(locked bool) error {
 		defer dr.mu.Unlock()
 		locked = true
 	}
-	if dr.exists {
+	if dr.exists.Load() {
 		return nil
 	}
 	// create the directory
@@ -575,7 +576,7 @@ func (dr *dirRepo) repoInit(locked bool) error {
 	if err != nil {
 		return err
 	}
-	dr.exists = true
+	dr.exists.Store(true)
 	return nil
 }
 
@@ -624,7 +625,7 @@ func (dr *dirRepo) indexLoad(force, locked bool) error {
 	}
 	dr.index = parseIndex
 	dr.timeMod = stat.ModTime()
-	dr.exists = true
+	dr.exists.Store(true)
 
 	mod, err := indexIngest(dr, &dr.index, dr.conf, locked)
 	if err != nil {
@@ -733,7 +734,7 @@ func (dr *dirRepo) gc() error {
 			return errors.Join(errs...)
 		}()
 		if errDir == nil {
-			dr.exists = false
+			dr.exists.Store(false)
 		}
 	}
 	dr.log.Debug("finished GC", "repo", dr.name, "err", errGC)
